@@ -559,30 +559,7 @@ func ruleC20(c *Ctx) {
 				if call.Ellipsis.IsValid() {
 					return true
 				}
-				nApp++
-				// direct append: must be preceded in the same function by a membership test on a `loaded`-like set
-				// that returns, and a mark of the same key (checked in detail by G-ONCE for the loader)
-				hasTest := false
-				for _, g := range guardsIn(fd.Body) {
-					ix, ok := ast.Unparen(g.Cond).(*ast.IndexExpr)
-					if !ok || len(call.Args) != 2 || exprStr(c.P.Fset, ix.Index) != exprStr(c.P.Fset, call.Args[1]) {
-						continue
-					}
-					t := finfo.TypeOf(ix.X)
-					if t == nil {
-						continue
-					}
-					if m, ok := t.Underlying().(*types.Map); !ok || types.TypeString(m.Elem(), nil) != "bool" {
-						continue
-					}
-					returns := stmtsContain(g.Body, func(m ast.Node) bool { _, ok := m.(*ast.ReturnStmt); return ok })
-					gcond := g.Cond
-					if returns && mustPassBefore(cfgOf(fd), as, func(x ast.Node) bool { return nodeCovers(x, gcond) }) {
-						hasTest = true
-					}
-				}
-				c.check(hasTest, "C20-ONCE", fname, "FileOrder append is de-duplicated", as.Pos(),
-					"the appended path was tested against a set of already listed files", "a path is appended to FileOrder without a membership test: a file reached twice is aggregated twice")
+				// direct growth: decided on SSA below
 				return true
 			}
 			// via helper: a module function that appends to its slice parameter must hand the slice back
@@ -596,6 +573,80 @@ func ruleC20(c *Ctx) {
 			}
 			return true
 		})
+	}
+	// direct growth `x.FileOrder = append(x.FileOrder, p)`: the store is only reached behind a membership test of p in
+	// a set of already listed files - made in the function itself or by a verdict helper it calls (the loader's
+	// typestate is checked in detail by G-ONCE)
+	for _, f := range c.P.ModuleFuncs() {
+		for _, b := range f.Blocks {
+			for _, ins := range b.Instrs {
+				st, ok := ins.(*ssa.Store)
+				if !ok {
+					continue
+				}
+				fa, ok := st.Addr.(*ssa.FieldAddr)
+				if !ok || fieldVarOfAddr(fa) == nil || fieldVarOfAddr(fa).Name() != "FileOrder" {
+					continue
+				}
+				call, ok := st.Val.(*ssa.Call)
+				if !ok {
+					continue
+				}
+				if bi, ok := call.Call.Value.(*ssa.Builtin); !ok || bi.Name() != "append" || len(call.Call.Args) != 2 {
+					continue
+				}
+				sl, ok := call.Call.Args[1].(*ssa.Slice)
+				if !ok {
+					continue // a spread append of an existing slice (snapshot copy)
+				}
+				arr, ok := sl.X.(*ssa.Alloc)
+				if !ok {
+					continue
+				}
+				// the appended element(s)
+				var elems []ssa.Value
+				for _, r := range *arr.Referrers() {
+					if ia, ok := r.(*ssa.IndexAddr); ok {
+						for _, r2 := range *ia.Referrers() {
+							if s2, ok := r2.(*ssa.Store); ok {
+								elems = append(elems, s2.Val)
+							}
+						}
+					}
+				}
+				nApp++
+				isSetLookup := func(x ssa.Value) (*ssa.Lookup, bool) {
+					lk, ok := x.(*ssa.Lookup)
+					if !ok {
+						return nil, false
+					}
+					m, ok := lk.X.Type().Underlying().(*types.Map)
+					return lk, ok && types.TypeString(m.Elem(), nil) == "bool"
+				}
+				hasTest := false
+				for _, cc := range controlCondsPol(b) {
+					if lk, ok := isSetLookup(cc.Cond); ok {
+						// a test in the function itself: of the appended path, and the append is on its negative branch
+						for _, e := range elems {
+							if (lk.Index == e || sameLoad(lk.Index, e)) && !cc.Taken {
+								hasTest = true
+							}
+						}
+						continue
+					}
+					// a verdict helper: its key is bound to the caller's argument
+					out := map[ssa.Value]bool{}
+					sliceWithControl(cc.Cond, 0, out)
+					for v := range out {
+						if lk, ok := isSetLookup(v); ok && lk.Parent() != f {
+							hasTest = true
+						}
+					}
+				}
+				c.check(hasTest, "C20-ONCE", funcName(f), "FileOrder append is de-duplicated", st.Pos(),
+					"the appended path was tested against a set of already listed files", "a path is appended to FileOrder without a membership test: a file reached twice is aggregated twice")
+			}
+		}
 	}
 	c.census("C20-ONCE", "growth sites of FileOrder", nApp, 2)
 }
